@@ -20,7 +20,7 @@ from mpyc import sectypes, thresha  # noqa: E402
 import common  # noqa: E402
 
 LEVEL = 'proof'
-LEAN_MODULES = ['MpycV.Props.C06']
+LEAN_MODULES = ['MpycV.Props.C06', 'MpycV.Model.SecFld']  # the driver Drv/FldConv.lean imports Model.SecFld
 LEAN_NAMESPACES = ['MpycV.C06']
 REQUIRED_THEOREMS = ['convert_int_like', 'convert_int_like_down', 'convert_up_nowrap', 'convert_fld', 'convert_fld_nowrap',
                      'convert_two_step', 'trunc_neighbour', 'mask_in_range', 'shr_is_field_division', 'read_fits',
